@@ -180,6 +180,8 @@ class Ctx:
         self.f32 = False
         self.solver_time = 0.0
         self.feas_queries = 0
+        self.round_u = None     # unit round-off: when set, arithmetic pointwise ops carry (1+delta) factors
+        self.deltas = []
         self.relations = []     # (guard Bool, polynomial term == 0) facts contributed by contract stubs
         self.env = {}           # symbolic input name -> concrete payload value (self-test point)
         self.deviated = False   # some decision differs from what the concrete payload would have done
@@ -638,6 +640,11 @@ def _por(ps):
     return ps[0] if len(ps) == 1 else simp(z3.Or(ps))
 
 
+ROUNDED_OPS = {'aten.%s.%s' % (a, b) for a in ('add', 'sub', 'mul', 'div', 'add_', 'sub_', 'mul_', 'div_') for b in ('Tensor', 'Scalar')} | {
+    'aten.%s.default' % a for a in ('reciprocal', 'sqrt', 'rsqrt', 'sin', 'cos', 'tan', 'exp', 'expm1', 'log', 'log1p', 'atan', 'asin', 'acos',
+                                     'tanh', 'atan2', 'square')} | {'aten.rsub.Scalar', 'aten.rsub.Tensor', 'aten.pow.Tensor_Scalar', 'aten.pow.Tensor_Tensor'}
+
+
 def pointwise(fn, pfn=None, sel=False):
     """fn(ctx, *terms) -> term.  pfn(ctx, *terms) -> extra poison Bool or None.
     sel=True: fn is a selection (where): poison handled by fn-specific code"""
@@ -668,6 +675,18 @@ def pointwise(fn, pfn=None, sel=False):
                 extra[k] = kwargs[k]
         ctx = m.ctx
         res = [simp(fn(ctx, *c, **extra)) for c in zip(*cols)] if target.numel() else []
+        if ctx.round_u is not None and target.dtype.is_floating_point and name in ROUNDED_OPS and target.numel():
+            # standard model of floating-point arithmetic: fl(x op y) = (x op y)(1 + delta), |delta| <= u  (one fresh delta per
+            # element and operator; exact operations and data movement carry none)
+            rr = []
+            for r_ in res:
+                if z3.is_rational_value(r_) or z3.is_bool(r_):
+                    rr.append(r_)
+                    continue
+                dlt = ctx.fresh('delta')
+                ctx.deltas.append(dlt)
+                rr.append(r_ * (1 + dlt))
+            res = rr
         pres = None
         if ctx.track_poison and target.numel():
             pcols = pcols0 if pcols0 is not None else _bcast(m, [a if isinstance(a, torch.Tensor) else None for a in ins], target.shape, m.poisons)
